@@ -508,14 +508,19 @@ func combineHeaders(srcs []*Profile) (*Profile, error) {
 
 		TimeNanos:     timeNanos,
 		DurationNanos: durationNanos,
-		PeriodType:    srcs[0].PeriodType,
 		Period:        period,
 
 		Comments:          comments,
 		DefaultSampleType: defaultSampleType,
 		DocURL:            docURL,
 	}
-	copy(p.SampleType, srcs[0].SampleType)
+	// Copy the value types so that the result is independent of the inputs.
+	for i, st := range srcs[0].SampleType {
+		p.SampleType[i] = &ValueType{Type: st.Type, Unit: st.Unit}
+	}
+	if pt := srcs[0].PeriodType; pt != nil {
+		p.PeriodType = &ValueType{Type: pt.Type, Unit: pt.Unit}
+	}
 	return p, nil
 }
 
